@@ -282,23 +282,76 @@ def option_provenance(ctx, rule='A6'):
                  for p, lab in fb[0].pred)
     ctx.ob(rule, fkey(fe, rule, 'none-entry-iff-no-hit'), ok, fe.where,
            'mapping[None] is used exactly when no source node of the mapping exists', '')
-    # initialisation completeness checks
+    # initialisation completeness checks: both initialize() methods interpreted abstractly; every validation is a
+    # path that raises SupInitializationError under an assumption, and the path that finishes assumes its negation
+    from ..rules import absint
+    M = ('attr', ('name', 'self'), '_mapping')
+
+    def init_paths(fn_):
+        helpers = {h.name: h for h in unit_functions(ctx.prog, fn_)[1:]}
+        paths = absint.Interp(fn_, helpers).run()
+        raising = [q for q in paths if q.outcome[0] == 'raise' and 'SupInitializationError' in (q.outcome[1] or '')]
+        done = [q for q in paths if q.outcome[0] in ('fall', 'return')]
+        if not done:
+            raise AnalysisError(f'{fn_.qualname}: no path completes the initialisation')
+        return raising, done
+
+    def nonempty_of(c, v):
+        """D when the assumption (c, v) says "collection D is not empty", else None."""
+        if isinstance(c, tuple) and c[0] in ('gt', 'eq') and isinstance(c[1], tuple) and c[1][0] == 'call' and \
+                c[1][1] == ('name', 'len') and c[2] == 0 and len(c[1][2]) == 1:
+            if (c[0] == 'gt' and v) or (c[0] == 'eq' and not v):
+                return c[1][2][0]
+            return None
+        if isinstance(c, tuple) and c[0] == 'binop' and v:
+            return c
+        return None
+
+    def validation(raising, done, pred, what):
+        """Some raising path ends in an assumption recognised by pred, and every completing path assumes the
+        opposite."""
+        hit = [(q.conds[-1]) for q in raising if q.conds and pred(*q.conds[-1])]
+        if not hit:
+            return False, f'no path raises SupInitializationError under "{what}"'
+        c0 = hit[0][0]
+        ok_ = all(any(c == c0 and v != hit[0][1] for c, v in q.conds) for q in done)
+        return ok_, f'raises under {absint.fmt(c0)[:90]} = {hit[0][1]}'
+
+    def is_diff(d, left_pred, right_pred):
+        return isinstance(d, tuple) and d[:2] == ('binop', 'Sub') and left_pred(d[2]) and right_pred(d[3])
+
+    def has_call(t, name):
+        return bool(absint.find(t, lambda x: x[:1] == ('call',) and isinstance(x[1], tuple) and x[1][0] == 'attr' and
+                                x[1][2] == name))
     fi = ctx.fn(f'{SUP}:SupSelChoiceOptionMapping.initialize')
-    ti = FnText(ctx, fi)
-    for nm, frag, desc in (
-            ('all-source-options-mapped', 'unmapped_src_opt_nodes = set(src_option_nodes) - mapping_nodes',
-             'every option of the source choice must be a key of the mapping'),
-            ('none-required-if-conditional', 'src_dsg.has_conditional_existence(src_choice_node) and None not in self._mapping',
-             'a source choice that can be inactive requires the None entry'),
-            ('targets-are-options', 'unknown_sup_opt_nodes = set(self._mapping.values()) - set(sup_option_nodes)',
-             'every mapping value must be an option of the supplementary choice')):
-        ctx.ob(rule, fkey(fi, rule, nm), frag in ti and ti.count('raise SupInitializationError') >= 4, fi.where,
-               desc + ' (raises SupInitializationError otherwise)', '')
+    raising, done = init_paths(fi)
+    src_p, sup_p = fi.params[3], fi.params[1]
+
+    def keys_without_none(t):
+        # the mapping keys with the None key left out (set comprehension over the keys with an `is not None` filter)
+        return absint.contains(t, M) and bool(absint.find(t, lambda x: x[:1] == ('setcomp',) and any(
+            isinstance(c, tuple) and c[0] == 'not' and isinstance(c[1], tuple) and c[1][0] == 'is' and c[1][2] is None
+            for c in x[3:])))
+    checks = (
+        ('all-source-options-mapped', 'every option of the source choice must be a key of the mapping',
+         lambda c, v: (d := nonempty_of(c, v)) is not None and is_diff(
+             d, lambda l: has_call(l, 'get_option_nodes') and absint.contains(l, ('name', src_p)), keys_without_none)),
+        ('none-required-if-conditional', 'a source choice that can be inactive requires the None entry',
+         lambda c, v: v and isinstance(c, tuple) and c[0] == 'and' and has_call(c, 'has_conditional_existence') and
+         bool(absint.find(c, lambda x: x == ('not', ('in', None, M))))),
+        ('targets-are-options', 'every mapping value must be an option of the supplementary choice',
+         lambda c, v: (d := nonempty_of(c, v)) is not None and is_diff(
+             d, lambda l: l == ('call', ('name', 'set'), (('call', ('attr', M, 'values'), ()),)),
+             lambda r: has_call(r, 'get_option_nodes') and absint.contains(r, ('name', sup_p)))))
+    for nm, desc, pred in checks:
+        ok, detail = validation(raising, done, pred, desc)
+        ctx.ob(rule, fkey(fi, rule, nm), ok, fi.where, desc + ' (raises SupInitializationError otherwise)', detail)
     fx = ctx.fn(f'{SUP}:SupExistenceMapping.initialize')
-    tx = FnText(ctx, fx)
-    ok = 'if None not in self._mapping' in tx and tx.count('raise SupInitializationError') >= 4
+    raising, done = init_paths(fx)
+    ok, detail = validation(raising, done, lambda c, v: c == ('in', None, M) and v is False,
+                            'None is not a key of the mapping')
     ctx.ob(rule, fkey(fx, rule, 'existence-none-required'), ok, fx.where,
-           'an existence mapping without the None entry is rejected', '')
+           'an existence mapping without the None entry is rejected', detail)
 
 
 def existence_universe(ctx, rule='A6u'):
